@@ -202,6 +202,20 @@ func (f *Frame) callStatic(st *state, callee *ssa.Function, args []Val, binds []
 		chain = fmt.Sprintf("%s[%d]", chain, n)
 	}
 	cf := u.newFrame(callee, chain)
+	if cf.ct != nil && len(cf.ct.Requires) > 0 {
+		// the callee's preconditions are checked at the call site (and then assumed, as for any obligation)
+		pre := &state{reach: st.reach, mem: st.mem}
+		env := u.funcEnv(callee, args, nil, pre, pre)
+		for _, c := range cf.ct.Requires {
+			term, quant, err := u.evalClauseBool(env, c)
+			if err != nil {
+				u.specErrors = append(u.specErrors, fmt.Sprintf("%s requires %v", key, err))
+				continue
+			}
+			o := u.oblige(f, st, "pre", fmt.Sprintf("%s %s.%s", f.ordLabel(ins, "call"), key, c.Label), ins.Pos(), term)
+			o.Quant = quant
+		}
+	}
 	for i, p := range callee.Params {
 		cf.bind(p, args[i])
 		cf.params = append(cf.params, cf.vals[p])
@@ -351,7 +365,7 @@ func (u *Unit) appendSlice(f *Frame, st *state, ins ssa.Instruction, sT types.Ty
 			ite(and(le(add(base, n), a), lt(a, add(base, newLen))), sel(src, add(q, sub(a, add(base, n)))), sel(old, a)))
 		u.ctx.assert("append", fmt.Sprintf("(forall ((a! Int)) (! (= (select %s a!) %s) :pattern ((select %s a!))))", na, body, na))
 		u.sortOfSite(l.Site, l.Sort)
-		st.mem.arr[l.Site] = na
+		u.putArr(st.mem, l.Site, na)
 	} else {
 		// general element type: per-site arrays, element k of xs goes to index n+k
 		seen := map[string]bool{}
@@ -369,7 +383,7 @@ func (u *Unit) appendSlice(f *Frame, st *state, ins ssa.Instruction, sT types.Ty
 				ite(and(le(add(base, nb), a), lt(a, add(base, total))), sel(old, add(q, sub(a, add(base, nb)))), sel(old, a)))
 			u.ctx.assert("append", fmt.Sprintf("(forall ((a! Int)) (! (= (select %s a!) %s) :pattern ((select %s a!))))", na, body, na))
 			u.sortOfSite(l.Site, l.Sort)
-			st.mem.arr[l.Site] = na
+			u.putArr(st.mem, l.Site, na)
 		}
 	}
 	return Val{T: sT, S: []string{base, newLen, u.ctx.def("appcapr", SInt, ite(fits, c, nc))}}
@@ -397,7 +411,7 @@ func (u *Unit) copySlice(st *state, dT types.Type, dst, src Val, sT types.Type) 
 		base := u.arr(st.mem, l.Site, l.Sort)
 		srcArr := u.arr(st.mem, srcSite, srcSort)
 		u.sortOfSite(l.Site, l.Sort)
-		st.mem.arr[l.Site] = u.copyArray(l.Site, l.Sort, base, srcArr, dst.S[0], src.S[0], mul(n, intLit(int64(stride))))
+		u.putArr(st.mem, l.Site, u.copyArray(l.Site, l.Sort, base, srcArr, dst.S[0], src.S[0], mul(n, intLit(int64(stride)))))
 	}
 	return n
 }
@@ -452,7 +466,7 @@ func (u *Unit) strConcat(st *state, a, b Val, t types.Type) Val {
 		ite(and(le(add(p, a.S[1]), x), lt(x, add(p, n))), sel(old, add(b.S[0], sub(x, add(p, a.S[1])))), sel(old, x)))
 	u.ctx.assert("strcat", fmt.Sprintf("(forall ((a! Int)) (! (= (select %s a!) %s) :pattern ((select %s a!))))", na, body, na))
 	u.sortOfSite(strSite, SBV(8))
-	st.mem.arr[strSite] = na
+	u.putArr(st.mem, strSite, na)
 	return Val{T: t, S: []string{ite(eq(n, "0"), "0", p), n}}
 }
 
@@ -466,6 +480,6 @@ func (u *Unit) freshString(st *state, t types.Type, prefix string) Val {
 	na := u.ctx.freshConst("Ms", SArr(SInt, SBV(8)))
 	u.ctx.assert("freshstr", fmt.Sprintf("(forall ((a! Int)) (! (=> (< a! %s) (= (select %s a!) (select %s a!))) :pattern ((select %s a!))))", p, na, old, na))
 	u.sortOfSite(strSite, SBV(8))
-	st.mem.arr[strSite] = na
+	u.putArr(st.mem, strSite, na)
 	return Val{T: t, S: []string{ite(eq(n, "0"), "0", p), n}}
 }
